@@ -439,6 +439,7 @@ class SimProbe : public Oomd::Engine::BasePlugin {
         }, true);
     argParser_.addArgument("order", order_);
     argParser_.addArgument("light", light_);
+    argParser_.addArgument("temporal_from", temporalFrom_);
     if (!argParser_.parse(args))
       return 1;
     return 0;
@@ -574,6 +575,13 @@ class SimProbe : public Oomd::Engine::BasePlugin {
       Json::Value vals(Json::objectValue);
       Json::Value unstable(Json::arrayValue);
       for (auto& f : fields) {
+        // before `temporal_from` the temporal values (and what they are
+        // derived from) are not asked for: their first query comes late
+        if (R.tick < temporalFrom_ &&
+            (f == "average_usage" || f == "io_cost_rate" ||
+             f == "pg_scan_rate" || f == "memory_growth" ||
+             f == "io_cost_cumulative" || f == "pg_scan_cumulative"))
+          continue;
         Json::Value a = one(c, f);
         vals[f] = a;
         if (light_)
@@ -636,6 +644,7 @@ class SimProbe : public Oomd::Engine::BasePlugin {
   std::unordered_set<Oomd::CgroupPath> cgroups_;
   int order_ = 0;
   bool light_ = false;
+  int temporalFrom_ = 0;
 };
 } // namespace sim
 namespace Oomd {
